@@ -1,6 +1,7 @@
 package main
 
 import (
+	"fmt"
 	"strconv"
 	"strings"
 
@@ -128,6 +129,36 @@ func genC01(c *Ctx) {
 			out := c.Emit("move " + tok + " " + encMove(m))
 			c.Emit("smove " + tok + " " + encMove(m))
 			tagMove(c, m, out)
+		}
+		// slide words with a ZERO nibble below a non-zero one (never produced by AllMoves or the PTN parser, but
+		// reachable through the playtak wire format): on every stack the mover controls, in every direction
+		emitZeroNibbleSlides(c, p, tok)
+		// the exported accessors (Top, At, Analysis(), IsRoad, reserves, ToMove) on the position and on a successor
+		c.Emit("acc " + tok)
+		if len(ms) > 0 {
+			c.Emit("accmove " + tok + " " + encMove(ms[c.R.Intn(len(ms))]))
+		}
+	}
+}
+
+func emitZeroNibbleSlides(c *Ctx, p *tak.Position, tok string) {
+	n := p.Size()
+	words := []tak.Slides{0x10, 0x101, 0x100, 0x201, 0x1001, 0x20, 0x110, 0x1010, 0x10000000, 0x102}
+	tried := 0
+	for y := 0; y < n && tried < 12; y++ {
+		for x := 0; x < n && tried < 12; x++ {
+			t := p.Top(x, y)
+			if t == 0 || t.Color() != p.ToMove() || p.MoveNumber() < 2 {
+				continue
+			}
+			w := words[c.R.Intn(len(words))]
+			for _, ty := range []tak.MoveType{tak.SlideLeft, tak.SlideRight, tak.SlideUp, tak.SlideDown} {
+				m := tak.Move{X: int8(x), Y: int8(y), Type: ty, Slides: w}
+				out := c.Emit("move " + tok + " " + encMove(m))
+				c.Emit("smove " + tok + " " + encMove(m))
+				c.Count("zero-nibble-slide." + clip(out, 3))
+				tried++
+			}
 		}
 	}
 }
@@ -520,6 +551,19 @@ func genC02(c *Ctx) {
 		}
 		classifyPos(c, p)
 		emitC02(c, p, c.R.Chance(1, 4))
+		if k%4 == 0 {
+			// exported accessors incl. Analysis() and GameOver on the same boards; Flood / BitCoords / TrailingZeros directly
+			c.Emit("acc " + encPos(p))
+			raw := p.VerifRaw()
+			road := (raw.White | raw.Black) &^ raw.Standing
+			seed := road & -road
+			c.Emit(fmt.Sprintf("api.flood %d %d %d", p.Size(), road, seed))
+			c.Emit(fmt.Sprintf("api.flood %d %d %d", p.Size(), raw.White&^raw.Standing, c.R.Next()&raw.White))
+			if b := c.R.Next() >> uint(c.R.Intn(64)); b != 0 {
+				c.Emit(fmt.Sprintf("api.bits %d %d", p.Size(), b))
+			}
+			c.Emit(fmt.Sprintf("api.bits %d %d", p.Size(), uint64(1)<<uint(c.R.Intn(p.Size()*p.Size()))))
+		}
 	}
 }
 
